@@ -52,6 +52,11 @@ def run(ctx):
     ctx.rule("E3", "who-may-count string units; TextEncoding::width has one arm per variant using the matching primitive")
     ctx.rule("E4", "unit consistency in the text-diff hooks: an accumulator (field of the hook or local) that receives a TextEncoding::width-derived addend anywhere receives only width-derived addends (no grapheme counts, no literal 1 for a block)")
     ctx.rule("E6", "patch lengths: the length of every PatchLog::delete_seq is a width in the document's encoding, or the literal 1 at a site that only handles list elements (reviewed)")
+    ctx.rule("E7", "OpSet::seek_text_ops_by_index_fast: an op is collected as the element's value only on the true edge of Op::visible (an incremented counter stays, its increments do not), after Op::fix_counter folded the increments in")
+    ctx.rule("E8", "OpSet::seq_length: the widths summed for a text at historical heads come from the one-top-op-per-element iterator that OpSet::text reads (sibling agreement), not from every visible op")
+    ctx.rule("E9", "Automerge::get_marks_for: the index parameter is compared with an accumulation of Op::width results, never handed to an element-counting adaptor (nth / skip / advance_by)")
+    ctx.rule("W4", "C02 W4 re-run")
+    ctx.rule("W6", "OpSet::add_succ_with_undo: the exposing store goes through OpSet::expose, which sets the top flag and the text-index width together")
     ctx.rule("E5", "the text-diff hooks never delete a single element (TransactionInner::delete); every delete count handed to splice_text is the constant 0 or width-derived")
     f = ctx.facts()
     a = f.adts.get(TE)
@@ -134,6 +139,7 @@ def run(ctx):
         want = PRIMITIVE.get(v)
         ctx.ob("E3", "TextEncoding::width|%s uses %s" % (v, want), want in arm_calls and len(arm_calls) == 1, wb.rec["sp"], "arm calls %s" % sorted(arm_calls))
     check_units(ctx, f)
+    check_index_readers(ctx, f)
 
 
 def width_fns(f):
@@ -354,3 +360,74 @@ def check_delete_lengths(ctx, f):
             else:
                 ctx.ob("E6", k, False, t["sp"], "a deletion of literal length %s is logged where text objects are handled: an element wider than one unit (a block marker in UTF-8, a multi-unit character) leaves its tail in a materialized view" % c.get("v"))
     ctx.floor("PatchLog::delete_seq call sites", n, 8)
+
+
+def check_index_readers(ctx, f):
+    from . import C02
+    OPSET = "automerge::op_set2::op_set::OpSet::"
+    # ---------------- E7
+    b = ctx.body(OPSET + "seek_text_ops_by_index_fast")
+    ctx.analysed_fns.add(OPSET + "seek_text_ops_by_index_fast")
+    pushes = [(bi, t) for bi, t in b.calls() if (norm_fn(t.get("fn")) or "").endswith("Vec::push") and "Op<" in " ".join(t.get("argtys", []))]
+    ctx.floor("ops collected by seek_text_ops_by_index_fast", len(pushes), 1)
+    vis_true = cfg.cond_edges(b, atom_call=lambda t: (callee(t) or "").endswith("op_set2::op::Op::visible"))
+    fixes = [bi for bi, t in b.calls() if (callee(t) or "").endswith("op_set2::op::Op::fix_counter")]
+    for k, (bi, t) in util.ordinal_keys(pushes, lambda it: "seek_text_ops_by_index_fast|op collected"):
+        guarded = any(b.edges_dominate([e], bi) for e in vis_true)
+        fixed = any(b.block_dominates(fb, bi) for fb in fixes)
+        ctx.ob("E7", k, guarded and fixed, t["sp"], "behind Op::visible, counters fixed" if guarded and fixed else
+               ("an op is taken as the element's value without the Op::visible test: an incremented counter embedded in a text is dropped and get() is handed its Increment op (panic)" if not guarded else
+                "a counter embedded in a text is returned without its increments folded in (Op::fix_counter): get() shows the creation value"))
+    # ---------------- E8
+    sl = ctx.body(OPSET + "seq_length")
+    ctx.analysed_fns.add(OPSET + "seq_length")
+    tx = ctx.body(OPSET + "text")
+    def op_sources(bd):
+        return {(callee(t) or "").split("::")[-1] for _, t in bd.calls() if (callee(t) or "").startswith(OPSET) and (callee(t) or "").split("::")[-1] in
+                ("action_value_iter", "action_value_top_iter", "top_ops", "iter_range", "iter_obj", "iter")}
+    src_text = op_sources(tx)
+    sums = [(bi, t) for bi, t in sl.calls() if (norm_fn(t.get("fn")) or "").split("::")[-1] in ("sum", "fold", "count") and
+            any((norm_fn(c) or "").startswith(OPSET) for c in sl.provenance(t["args"][0], through_calls=True).callees())]
+    ctx.floor("iterator sums in seq_length", len(sums), 1)
+    ctx.floor("op iterators read by OpSet::text", len(src_text), 1)
+    n_sum = 0
+    for k, (bi, t) in util.ordinal_keys(sums, lambda it: "seq_length|summed iterator"):
+        srcs = {(norm_fn(c) or "").split("::")[-1] for c in sl.provenance(t["args"][0], through_calls=True).callees() if (norm_fn(c) or "").startswith(OPSET)}
+        srcs &= {"action_value_iter", "action_value_top_iter", "top_ops", "iter_range", "iter_obj", "iter"}
+        if not srcs:
+            continue                # the list branch sums index columns, not ops
+        n_sum += 1
+        ok = srcs <= src_text
+        ctx.ob("E8", k, ok, t["sp"], "same element iterator as OpSet::text (%s)" % sorted(srcs) if ok else
+               "length at historical heads sums over %s while text() reads %s: a conflicted text element is counted once per concurrent value" % (sorted(srcs), sorted(src_text)))
+    ctx.floor("sums over op iterators in seq_length", n_sum, 1)
+    # ---------------- E9
+    GM = [p for p in f.fns if norm_fn(p) == "automerge::automerge::Automerge::get_marks_for"]
+    if len(GM) != 1:
+        raise facts.AnchorMissing("Automerge::get_marks_for")
+    g = cfg.body(f.fns[GM[0]])
+    ctx.analysed_fns.add(GM[0])
+    idx = [i for i in range(1, g.argc + 1) if g.local_ty(i) == "usize"]
+    if len(idx) != 1:
+        raise facts.AnchorMissing("usize index parameter of get_marks_for")
+    idx = idx[0]
+    counted = []
+    for bi, t in g.calls():
+        if (norm_fn(t.get("fn")) or "").split("::")[-1] in ("nth", "skip", "advance_by", "take", "nth_back"):
+            for a in t.get("args", [])[1:]:
+                o = g.operand_origin(a)
+                if o and o[0] == idx:
+                    counted.append((bi, t))
+    widths = [bi for bi, t in g.calls() if (callee(t) or "").endswith("op_set2::op::Op::width")]
+    cmps = 0
+    for sb, sw in g.switches():
+        src = g.bool_operand_source(sw["op"])
+        if src and src["kind"] == "bin" and src["op"] in ("Gt", "Ge", "Lt", "Le"):
+            os_ = [g.operand_origin(o) for o in src["o"]]
+            if any(o and o[0] == idx for o in os_):
+                cmps += 1
+    ok = not counted and bool(widths) and cmps >= 1
+    ctx.ob("E9", "get_marks_for|index measured by width", ok, (counted[0][1]["sp"] if counted else g.rec["sp"]),
+           "index compared with accumulated Op::width" if ok else
+           "the index of get_marks is consumed as an element count (%s): with multi-unit characters it addresses a different character than get(), mark() and marks()" % (sorted({(norm_fn(t.get("fn")) or "").split("::")[-1] for _, t in counted}) or "no width comparison"))
+    C02.check_expose_once(ctx, f)
